@@ -14,7 +14,7 @@ PROBES = {
                 ('Assign', '1'), ('New', '01'), ('Alloc', '00'), ('Size', '1'), ('Swap', '1'), ('Help', '0'), ('Size', '0')],
     'ProbeS3': [('Copy', '1'), ('Cast', '1'), ('Cast', '0')],
 }
-LOOKUPS = 'IPMQipmqJKkEH'
+LOOKUPS = 'IPMQipmqJKkEHcdgf'
 LIFE = 'NWXY'
 
 def table():
@@ -26,6 +26,13 @@ def table():
         return g_disp.extract_loose(core.REPO)
 
 def fl(bs): return ''.join('1' if b else '0' for b in bs)
+
+def harness_wrappers():
+    """the dispatching functions harness/h_disp.c can call: rows `W(function, Class, member, soft, …)` of its WLIST"""
+    import re
+    src = open(os.path.join(core.ROOT, 'harness', 'h_disp.c')).read()
+    m = re.search(r'#define WLIST\(W\)(.*?)\n#define W_DEF', src, flags=re.S)
+    return [(a, b, c, d == '1') for a, b, c, d in re.findall(r'\bW\((\w+), (\w+), (\w+), ([01])', m.group(1))] if m else []
 
 class Gen:
     def __init__(self, rng, tab):
@@ -395,6 +402,98 @@ class Gen:
                     kept = []
         return Case(name, lines)
 
+    # ---- (10) a run-time type deleted and the next one created by `new_raw(Type, …)` ON THE SAME ADDRESS (mode heap: Type_Alloc's
+    #           calloc served from a LIFO pool, as malloc does outside ASan's quarantine; or the harness arena), the types being USED
+    #           through the dispatching functions of the library (`c`), through method / type_method / implements_method call sites
+    #           (`d g f`) and through the lookup functions: nothing may remember a type by its address
+    def recycle_case(self, name, cycles):
+        r = self.rng
+        lines = self.prelude()
+        pool = self.class_pool(lines, 14)
+        pool = [c for c in pool if c[2] != 'Terminal']
+        slot_cls = [[c for c in pool if c[2] == nm] for nm in self.cached]
+        cold = [c for c in pool if c[2] not in self.cached]
+        known = {(fn, C): (k, False) for fn, C, M, k in self.tab.get('method_sites', [])}
+        known.update({(fn, C): (k, True) for fn, C, M, k in self.tab.get('instance_sites', [])})
+        funcs = [(fn, C, known[(fn, C)][0], soft) for fn, C, M, soft in harness_wrappers() if (fn, C) in known and known[(fn, C)][1] == soft and C in self.arity]
+        if not funcs: return Case(name, lines)
+        cached_f = [f for f in funcs if f[1] in self.cached]; uncached_f = [f for f in funcs if f[1] not in self.cached]
+        def kitem(ctok, C, k, bit):
+            n = self.arity[C]
+            flags = [r.choice('011') for _ in range(n)]; flags[k] = bit
+            return ((ctok, n, C), f'{ctok}:' + ''.join(flags), n)
+        def declared_bit(row, C, k):
+            first = next((it for c, it, m in row if c[2] == C), None)
+            if first is None: return None
+            f = first.split(':')[1]
+            return f[k] if k < len(f) else None
+        def toks_of(C): return [c[0] for c in pool if c[2] == C]
+        def uses(tid, row, fn, C, k, soft, first=None, n=4):
+            """uses of the type through every entry point, `first` first"""
+            out = []
+            bit = declared_bit(row, C, k)
+            def ok(e): return not (e == 'c' and soft and bit != '1')
+            cand = ['c', 'c', 'd', 'g', 'f', 'i', 'I', 'm', 'M', 'q', 'p']
+            seq = ([first] if first else []) + [r.choice(cand) for _ in range(n)]
+            for e in seq:
+                if e in 'cdgf':
+                    if ok(e): out.append(f'{e} {tid} {fn}')
+                    else: out.append(f'd {tid} {fn}')
+                else:
+                    tok = r.choice(toks_of(C))
+                    out.append(f'{e} {tid} {tok}' + (f' {k}' if e in 'mMqQ' else ''))
+            return out
+        tid = 0; live = []          # live: (tid, row, mode)
+        nheap = 0
+        for cyc in range(cycles):
+            fn, C, k, soft = r.choice(uncached_f if r.random() < 0.6 and uncached_f else (cached_f or funcs))
+            mode = 'arena' if r.random() < 0.2 and sum(1 for t in live if t[2] == 'arena') < 4 else 'heap'
+            tid += 1
+            base = [x for x in self.life_row(pool, slot_cls, cold) if x[0][2] != C]
+            row1 = base + [kitem(r.choice(toks_of(C)), C, k, '1')]; r.shuffle(row1)
+            lines.append((f'N {tid} {mode} R{tid}_{name} {r.choice([0, 8, 16])} ' + ' '.join(it for c, it, m in row1)).rstrip())
+            if r.random() < 0.4: lines += self.life_lookups(tid, row1, slot_cls, cold, [], 0.2)
+            entry = r.choice(['c', 'c', 'c', 'd', 'd', 'g'])
+            # the last uses of the type before it goes: the function under test last, through `entry`
+            pre = uses(tid, row1, fn, C, k, soft, n=r.randrange(0, 3))
+            lines += pre
+            for _ in range(r.randrange(1, 3)): lines.append(f'{entry} {tid} {fn}')
+            lines.append(f'X {tid}')
+            # the next type object: created right away on the address just released
+            v = r.choice(['other', 'other', 'absent', 'absent', 'null', 'dupnull', 'twin'])
+            tid += 1
+            row2 = [x for x in self.life_mutate(base, pool, slot_cls, cold) if x[0][2] != C]
+            if v == 'other': row2.insert(r.randrange(len(row2) + 1), kitem(r.choice(toks_of(C)), C, k, '1'))
+            elif v == 'null': row2.insert(r.randrange(len(row2) + 1), kitem(r.choice(toks_of(C)), C, k, '0'))
+            elif v == 'dupnull':
+                row2.insert(r.randrange(len(row2) + 1), kitem(r.choice(toks_of(C)), C, k, '1'))
+                row2.insert(0, kitem(r.choice(toks_of(C)), C, k, '0'))                    # the first triple of a class wins
+            elif v == 'twin':
+                tw = [t for t in toks_of(C) if t.startswith('r.')] or toks_of(C)
+                row2.insert(r.randrange(len(row2) + 1), kitem(r.choice(tw), C, k, r.choice('01')))
+            lines.append((f'N {tid} {mode} R{tid}_{name} {r.choice([0, 8, 16])} ' + ' '.join(it for c, it, m in row2)).rstrip())
+            # the very first use of the new type: the same function through the same entry point
+            lines += uses(tid, row2, fn, C, k, soft, first=entry, n=r.randrange(2, 6))
+            # other functions of the library on the new type (their call sites last saw other types)
+            for _ in range(r.randrange(0, 3)):
+                fn2, C2, k2, soft2 = r.choice(funcs)
+                b2 = declared_bit(row2, C2, k2)
+                if declared_bit(row2, C2, 0) is not None and b2 is None: continue        # member outside the declared instance
+                lines.append(f'{"d" if (soft2 and b2 != "1") else r.choice("cdg")} {tid} {fn2}')
+            live.append((tid, row2, mode))
+            # an older live type is used through the same function again (another address: the call site alternates)
+            if len(live) > 1 and r.random() < 0.5:
+                t0, rw0, m0 = r.choice(live[:-1])
+                b0 = declared_bit(rw0, C, k)
+                if not (declared_bit(rw0, C, 0) is not None and b0 is None):
+                    lines.append(f'{"d" if (soft and b0 != "1") else entry} {t0} {fn}')
+                    lines.append(f'{"d" if (soft and declared_bit(row2, C, k) != "1") else entry} {tid} {fn}')
+            while len(live) > 3 or (live and r.random() < 0.5):
+                t0, rw0, m0 = live.pop(r.randrange(len(live)))
+                lines.append(f'X {t0}')
+        for t0, rw0, m0 in live: lines.append(f'X {t0}')
+        return Case(name, lines)
+
     # ---- (7) class names in a prefix relation: the by-name comparison must be an exact one
     PREFIX_PAIRS = [('Show', 'Showable'), ('Hash', 'Hashable'), ('Iter', 'Iterable'), ('Foo', 'FooBar'), ('Cmp', 'Cmpx'),
                     ('C_Str', 'C_Strx'), ('Format', 'FormatError'), ('Get', 'Getter'), ('New', 'Newt'), ('S', 'Size'), ('Len', 'Le')]
@@ -622,7 +721,7 @@ class Gen:
 class C08(Spec):
     id = 'C08'; engine = 'disp'; harness = 'h_disp'; driver = 'drv_disp'
     generators = ('Disp',)
-    harness_flags = ('-rdynamic',)
+    harness_flags = ('-rdynamic', '-Wl,--wrap=free', '-Wl,--wrap=calloc')
     harness_libs = ('-lpthread', '-lm', '-ldl')
     harness_timeout = 150
     technique = ('Lean 4 proof: invariant-based refinement of the lookup code (cache words, memoised class pointers, two-pass scan) to '
@@ -630,7 +729,8 @@ class C08(Spec):
                  'layout constants, declared matrix and the texts of the modelled functions are regenerated from the source on every run; '
                  'Type_New modelled word by word on a raw storage and proved to produce the fresh type object from ANY previous contents, so the '
                  'theorem covers histories with re-construction in place; '
-                 'white-box differential check against the real library plus a direct oracle from the source-text matrix and a raw record scan')
+                 'type objects named by identity and an address-erasing spec (history independence over any address assignment); '
+                 'white-box differential check against the real library plus a direct oracle from the source-text matrix and a raw record scan, and on which declaration\'s member a dispatching call invoked')
     level_text = ('Theorem C08_lookup_exact: for every run-time type object and every history that interleaves lookups with re-constructions in place '
                   '(destruct + construct with any other instance list, or a refused one with > CELLO_MAX_INSTANCES), every lookup returns what the '
                   'declaration CURRENTLY in force declares; C08_type_new_any_storage / C08_reconstruct_in_place: Type_New, modelled word by word, writes '
@@ -650,6 +750,7 @@ class C08(Spec):
                   'pointer to it already reads as that name); without it C08_memo_stale_refuted (known finding KF-C08-class-memo-stale); '
                   'C08_world_history_resumes: after ANY prefix, once the executable heap invariant holds again (memoising records reset or re-constructed) the rest is answered by the spec; '
                   'C08_names_are_texts_partial: a heap with the PROVENANCE of its char* words (XHeap: which caller\'s buffer a __Name cell / a triple name word points into; Type_New with $S(buf) and instances given by their class objects; the caller\'s writes) answers as the value-level history under the executable hypothesis XHeap.quiet (a write hits only buffers nothing points into); without it C08_borrowed_name_refuted (known finding KF-C08-borrowed-name); '
+                  'C08_history_independent: type objects named by IDENTITY (an id; at the C level address + generation, C08_identity_is_address_and_generation), created by new(Type, …) at ANY address the allocator answers — a fresh one or the address of any number of deleted type objects — , deleted, reset and USED (the four lookups; calls of the library functions written with method(self, C, M, …) — ClassError or the declared member invoked, C08_call_exact — and of those written with instance(self, C) + member test; type_method): the observations equal specIds of the history with the addresses ERASED, every use answered from the instance list that very object was created with (C08_address_assignment_irrelevant: two histories that differ only in the addresses answer alike); C08_address_keyed_memo_refuted: a call site / lookup function that remembers an instance under the ADDRESS of the receiver\'s type violates it; C08_dispatch_sites: the dispatching functions of src/*.c (read from the source each run) name declared classes and members inside their structs; '
                   'C08_ptr_eq_is_value_eq, C08_heap_construct_is_type_new tie the heap level to the pointer comparison and to the word-level Type_New; '
                   'C08_null_class; C08_concurrent / C08_concurrent_complete / C08_wait_free: the same '
                   'results under every interleaving of atomic word accesses of any number of threads, every thread completing within 2n+10 own steps per '
@@ -675,10 +776,11 @@ class C08(Spec):
             'run-time classes), the longer one declared alone, before and after the shorter one; (8) type objects used as CLASSES of other types '
             '(class token t.<tid>): re-constructed under the old name while memoised, renamed / deleted / replaced on the same address after the '
             'memoising records were reset, with lookups through old and new names; NULL as the class on records where the answer is defined; (9) type and class names passed as $S(caller\'s buffer) (name token @b; the buffer filled before its first use and then left alone) next to literal names, class objects and types re-constructed with either kind, the caller writing (op Z) into buffers that no __Name cell and no triple name word points into — the O line of Z lists the cells and triples that point into the buffer, from raw pointer comparison in C and from the provenance tables of the model. '
+            '(10) run-time types created by new_raw(Type, …) while Type_Alloc\'s calloc is served from a LIFO pool of blocks (link-time --wrap=calloc/free; freed blocks poisoned for ASan until re-used), so that a type deleted with del_raw and the next one created land on the SAME ADDRESS as with malloc outside ASan\'s quarantine (the harness verifies the address and prints how often it was recycled: I heap=… recycled=…), or on the harness arena; every non-NULL member of every instance is one of 256 distinct probe functions, so the oracle knows which declaration\'s member ran; the types are used through ~48 dispatching functions of the library (op c: call_with, len, get, iter_next, push, sclose, start, lock, sort_by, look_from, hash, cmp, copy, show_to, … — classes with and without a cache slot), through method / type_method / implements_method call sites compiled into the harness from the Cello.h under test (ops d g f) and through instance / type_instance / method_at_offset: T1 with an instance of class K, a call, T1 deleted, T2 on its address with another instance of K / none / a NULL member / a shadowing first triple / a same-named run-time class, the same call first, then every other entry point; several live types alternating at one call site; '
             'non-trivial = a lookup whose observation is a found instance, an exception, a '
             'cast result or a thread run; distinct = distinct (declared row of the type, op without type number, observation); a re-construction counts by '
             '(declaration before, declaration after, outcome).')
-    trusted_base = ('translate/g_disp.py (regex/bracket matching over src/*.c, include/Cello.h): cache table, constants, declared matrix, function texts',
+    trusted_base = ('translate/g_disp.py (regex/bracket matching over src/*.c, include/Cello.h): cache table, constants, declared matrix, function texts, the list of dispatching functions',
                     'harness/h_disp.c + lean/Driver/Disp.lean (correspondence is testing)',
                     'word-atomic loads/stores of pointer-sized words; dlsym to resolve type objects by name')
     assumptions = ('no throwing lookup (method of an absent class/member, failing cast, non-type self) is generated with the Terminal object as the type or the class: known finding KF-C08-terminal-message (witness corpus/kf_c08_terminal.ops)',
@@ -688,7 +790,8 @@ class C08(Spec):
                    'a type object that other types use as a CLASS is given another NAME (re-construction in place under another name; deletion followed by another type object on its address) only when no type record memoises its address (the generator resets the memoising records first): known finding KF-C08-class-memo-stale (witness corpus/kf_c08_class_renamed.ops; theorem hypothesis Heap.safe of C08_world_history, refuted without it by C08_memo_stale_refuted)',
                    'the characters of a name passed to Type_New ($S(buf), a String object) are not written or released while a __Name cell or a triple name word points at them: Type_New keeps the caller\'s pointer as the type\'s name and copies the class\'s name pointer into every triple — known finding KF-C08-borrowed-name (witness corpus/kf_c08_borrowed_name.ops; theorem hypothesis XHeap.quiet of C08_names_are_texts_partial, refuted without it by C08_borrowed_name_refuted). Names in caller-owned buffers that are left alone, writes into buffers nothing points into, and re-writes of a name buffer with the very text it holds (no character changes; outside the letter of XHeap.quiet, exercised for the provenance lists of the Z observation), ARE generated (family borrow); instance objects live in harness storage that outlives the type (a run-time type keeps the instance pointers it is given)',
                    'NULL is not a class: type_instance(T, NULL) is probed only where Type_Scan does not read through the NULL pointer (C08_null_class says what it answers)',
-                   'malloc does not hand out the address of a deleted run-time type object again while a memoised pointer to it dangles (address reuse is exercised deterministically through the harness arena)',
+                   'malloc does not hand out the address of a deleted run-time type object again while a memoised CLASS pointer to it dangles (modes raw/root/gc/alloc/junk get fresh addresses: ASan\'s quarantine); address reuse is exercised deterministically through the harness arena and through mode heap (Type_Alloc\'s calloc served from a LIFO pool), for type objects that are not used as classes of other types',
+                   'the default code of a soft dispatching function (hash, cmp, copy, show_to, swap, assign without an own member) is not exercised: these are called only where the declaration in force has the member; dispatching functions take harness probe members that ignore their arguments',
                    'storage handed to construct has the size Type_Alloc reserves (CELLO_NBUILTINS + CELLO_MAX_INSTANCES + 1 cells) and a header naming Type; no lookup is made on a deleted type; GC-managed types (new) are kept reachable from the stack',
                    'default build (CELLO_CACHE on, checks on); loads and stores of pointer-sized words are atomic')
     def cases(self, rng, tier, boost=1):
@@ -712,6 +815,8 @@ class C08(Spec):
             cs.append(g.classlife_case(f'cls{boost}_{i}', 25 if quick else 40))
         for i in range((4 if quick else 60) * boost):
             cs.append(g.reuse_case(f'reuse{boost}_{i}', 8 if quick else 12))
+        rc = [g.recycle_case(f'recycle{boost}_{i}', 10 if quick else 16) for i in range((8 if quick else 120) * boost)]
+        cs = cs[:1] + rc[:2] + cs[1:] + rc[2:]          # two of them right after the static case: a memo keyed on an address shows early
         for i in range((2 if quick else 20) * boost):
             cs.append(g.prefix_case(f'prefix{boost}_{i}'))
         for i in range((4 if quick else 60) * boost):
@@ -748,7 +853,7 @@ class C08(Spec):
             if t[0] not in LOOKUPS: continue
             res = o.split(' ')[2] if len(o.split(' ')) > 2 else ''
             if t[0] in 'IiJ' and res == 'NULL': continue
-            if t[0] in 'PpQq' and res == '0': continue
+            if t[0] in 'PpQqf' and res == '0': continue
             tid = t[2] if t[0] == 'E' else t[1]
             items.add(hash((rows.get(tid, ''), t[0], ' '.join(t[2:]) if t[0] != 'E' else t[1] + ' ' + ' '.join(t[3:]), res)))
         return items
@@ -759,6 +864,10 @@ class C08(Spec):
         last_c = {}; after_w = set()
         def bump(k, n=1): acc[k] = acc.get(k, 0) + n
         arena_tids = set(); arena_freed = 0; as_class = set(); names = {}
+        for il in core.lines_with('I heap=', c_out):
+            for kv in il.split(' ')[1:]:
+                kk, _, vv = kv.partition('=')
+                if vv.isdigit(): bump({'heap': 'heap_constructions', 'after-free': 'heap_constructions_after_a_deletion', 'recycled': 'heap_constructions_on_the_address_of_a_deleted_type', 'just-freed': 'heap_constructions_on_the_address_released_last'}.get(kk, kk), int(vv))
         for op, o, rows in self._walk(case, c_out):
             t = op.split(' ')
             acc['op_' + t[0]] = acc.get('op_' + t[0], 0) + 1
